@@ -210,6 +210,26 @@ def replay_one(job):
                 w = (base + c13.name_of(w) + '.html') if w else None
                 if rels.get(rel) != w:
                     bad.append(('nav:' + rel, '%s: rel=%s is %s, specification %s %s' % (fn, rel, rels.get(rel), w, ctx)))
+    # the table of contents printed on every page (default theme): entries and order as the specification says
+    if renderer == 'HTML5' and variant in ('pure', 'rich', 'toc1', 'toc0', 'tocnonfiles', 'baseurl', 'extras'):
+        depth = {'toc1': 1, 'toc0': 0}.get(variant, 3)
+        t = beh['tocs'][depth]
+        units = t['all'] if variant == 'tocnonfiles' else t['files']
+        want = []
+        for i in (units or []):
+            u = beh['allurls'][i - 1]
+            w = c13.name_of(u['file']) + '.html'
+            if u['frag']:
+                w += '#' + (c13.label(beh['nodes'], i) if beh['nodes'][i - 1]['lab'] != 'none' else '*')
+            want.append(base + w if base else w)
+        for fn, text in files.items():
+            m = re.search(r'<nav class="toc">(.*?)</nav>', text, re.S)
+            got = re.findall(r'<a href="([^"]*)"', m.group(1)) if m else []
+            gotn = [re.sub(r'#a\d{10}$', '#*', g) for g in got]
+            extra = gotn[len(want):]
+            if gotn[:len(want)] != want or len(extra) > (1 if rich else 0):
+                bad.append(('toc', '%s: the table of contents lists %s, specification %s%s %s' % (fn, gotn, want, ' (+ the index page)' if rich else '', ctx)))
+                break
     # footnote marks point at the text of their own footnote
     for fn, t in files.items():
         notes = dict(re.findall(r'<li id="([^"]+)">\s*(?:<p>)?\s*ff(\d+) note', t))
